@@ -7,7 +7,7 @@ from props import rwcommon as rc
 ID = "C01"
 PROP_FILE = "props/C01.v"
 COQ_TARGETS = ["props/C01.v"]
-THEOREMS = ["C01_erase_sound", "C01_erase_any", "C01_rw_frag", "C01_rw_frag_certified", "C01_frag_semantics"]
+THEOREMS = ["C01_erase_sound", "C01_erase_any", "C01_rw_frag", "C01_rw_frag_certified", "C01_frag_semantics", "C01_fun_semantics"]
 TRUSTED_BASE = [
     "Coq 8.16.1 kernel, vm_compute for the per-program erasure certificates",
     "tools/impl/astexport.py (AST -> Coq term, interning, id canonicalisation), tools/translators/gen_pyast.py + gen_events.py",
@@ -179,7 +179,7 @@ def run(ctx, model_ok, deferred=False, only_deferred=False, n_quick=120, extra_c
         ksyn = rwfrag.check(ctx, rng, 80 if ctx.tier == "quick" else 800)
         # the semantics of the fragment (model/FragSem.v, theorem C01_frag_semantics) against the real rewriter, CPython and the real runtime
         ksem = rwfrag.check_sem(ctx, rng, 60 if ctx.tier == "quick" else 800)
-    return {
+    res = {
         "evaluations": len(cases), "distinct_nontrivial": len({lib.digest(c) for c, im in zip(cases, impl) if im.get("handler_calls", 0) >= 3}),
         "rule": "generated programs (prelude with helper functions/classes + 2-4 generated statements: assignments, calls, loops with break/continue/else, "
                 "functions with defaults/varargs/global/nonlocal/docstrings/decorators, try/except/else/finally, with, del, slices, lambdas, "
@@ -195,8 +195,17 @@ def run(ctx, model_ok, deferred=False, only_deferred=False, n_quick=120, extra_c
                          "k_sem_fragment_programs": ksem[0], "k_sem_agreeing": ksem[1], "k_sem_detail": ksem[2]},
         "failures": failures, "extra": {"certificate_failures": len(certs_bad)},
     }
+    if model_ok and ctx.prop == "C01":
+        # functions / calls / return on the fragment (model/FragFun.v, theorem C01_fun_semantics) against the real rewriter, CPython and the real runtime
+        from props import fragfun
+        fragfun.run_into(ctx, rng, res, 30 if ctx.tier == "quick" else 400)
+    return res
 
 
 def replay(ctx, rep):
+    case0 = (rep.get("failure") or {}).get("case") or {}
+    if case0.get("frag") == "fun":
+        from props import fragfun
+        return fragfun.replay_case(case0)
     case = (rep.get("failure") or {}).get("case")
     return fails_on_impl(case) if case else None
